@@ -83,7 +83,7 @@ def recipe_cases(chk):
                     while r == whole and tries < 5:
                         r = rg.region(P)
                         tries += 1
-                    present = [E.byname[x.name] for x in E.env[S].contents]
+                    present = [dsl.sid_of(E, x) for x in E.env[S].contents]
                     w = {'s': rng.choice(present)} if rng.random() < 0.7 else {'k': rng.choice(['Solid', 'Liquid', 'Enzyme'])}
                     rg.try_step({'op': 'remove', 't': {'p': P, 'r': r}, 'w': w}, 'remove:part-of-loaded-plate')
         removes = [(k, st) for k, st in enumerate(rg.steps) if st['op'] == 'remove']
